@@ -862,6 +862,10 @@ KILLS = [
     "userfunctions.py arguments bound without conversion -> caller-var.changed-after-error, result.value",
     "userfunctions.py result not converted to the function type -> call.error-missing, result.value",
     "userfunctions.py last saved variable not restored -> caller-var.changed, caller-var.changed-after-error",
+    "userfunctions.py evaluate(): _is_parsing reset only on the success path (wave-5 seed; needs a "
+    "call that fails inside a body and a later call without re-executing DEF FN) -> "
+    "later-call.fails-after-failed-call, call.error-code, result.parameter-read-after-rebinding "
+    "(regressions SQR/CHR$ histories and the random unit)",
     "userfunctions.py define(): parameter names completed with their sigil at DEF FN time (seeded "
     "change; needs an unsigiled parameter and a DEFtype between DEF FN and call) -> result.value, "
     "call.error-missing, call.unexpected-error (regressions FNA(7)/FNF(10) and random unit)",
